@@ -103,8 +103,10 @@ def obligations_hi_lo_eval(ctx, h):
             return r
         return I.explore(body, I.IntDom)
     ph, pl = run_eval(Hi), run_eval(Lo)
-    v = z3.Int('v')
+    v, v0 = z3.Int('v'), z3.Int('v_earlier')
     rp = ('hilo_eval', {})
+    # the property speaks of every 32-bit value, in its negative and its unsigned spelling: v in [-2**31, 2**32)
+    word = [v >= -2 ** 31, v < 2 ** 32, v0 >= -2 ** 31, v0 < 2 ** 32]
     for i, a in enumerate(ph):
         for j, b in enumerate(pl):
             ok = a.kind == 'return' and b.kind == 'return' and isinstance(a.value, I.Sym) and isinstance(b.value, I.Sym) \
@@ -114,8 +116,14 @@ def obligations_hi_lo_eval(ctx, h):
                               ((a.value.t * 4096 + b.value.t - v) % (2 ** 32)) == 0)
             else:
                 goal = z3.BoolVal(False)
-            ctx.add(Obligation('asm.Hi.eval+Lo.eval/split-of-inner-value#%d.%d' % (i, j), list(a.pc) + list(b.pc), goal, 'INT',
-                               func='asm.Hi.eval', kind='post', meta={'replay': rp}))
+            ctx.add(Obligation('asm.Hi.eval+Lo.eval/split-of-inner-value#%d.%d' % (i, j), word + list(a.pc) + list(b.pc), goal, 'INT',
+                               func='asm.Hi.eval', kind='post', cover=(ok is True), meta={'replay': rp}))
+    # outside the 32-bit range the property demands nothing of the split; a refusal must still be the assembler's own error
+    for nm, paths in (('Hi', ph), ('Lo', pl)):
+        for i, a in enumerate(paths):
+            if a.kind == 'raise':
+                ctx.add(Obligation('asm.%s.eval/refusal-is-an-AssemblerError#%d' % (nm, i), list(a.pc), z3.BoolVal(a.exc_name == 'AssemblerError'),
+                                   'INT', func='asm.%s.eval' % nm, kind='raises', cover=False, meta={'replay': rp}))
 
 
 def obligations_consumers_accept(ctx, h):
